@@ -189,6 +189,29 @@ C05c (quota files had no hierarchy of internal limits: shuffled hierarchies adde
 C02c (no second quota on the URL of the concurrency quota: added - and the mirrored order the
 sub-agent mentioned turned out to be a genuine defect of the unchanged tree, fix `3c5df4b`).
 
+Fourth wave (suffix d), 16 changes: 7 were caught as delivered (C01d, C03d, C06d, C10d, C11d,
+C15d, C19d), 7 were missed at first, 2 turned out to build on clauses in which the unchanged
+tree was already wrong (C09d: window size change, repaired by `ce2ecba` while the sub-agent
+was still working; C08d was caught, then made harmless by `3b692aa`). What was changed:
+C20d (the scripted predicate returned instantly, so checks sat exactly on the interval grid:
+the predicate now takes time),
+C05d (request and response directions never shared a processor key: response loops over
+request keys added),
+C08d/C08 (no payload failed at the *last* reload step: payload classes with a metrics entry
+added - which exposed two genuine defects, `6fb0bf2` and `3b692aa`; a yield point right after
+the publication of the new engine, probes reserved for that window),
+C17d (the clock only advanced by the cool-downs: slow upstream and a short retry request
+timeout added),
+C04d (one quota at most: two nested concurrency quotas and rules on the order of system and
+user flows, request vs. response),
+C12d (readers were never held across an expiry: in all-reader groups the clock may pass an
+expiry while they are parked; staleness is judged at the start of the request),
+C02d (the same transaction was never ended twice *concurrently*: overlapping response and
+proxy error added),
+C18d (no scheduling point inside a processor's Execute: the instrumenter now puts one in
+front of every statement of the Execute methods under streams/processors, used by C18S in half
+of its runs together with probe traffic that differs in the filter outcome).
+
 ### 12.1 Reverting the repairs
 
 `tools/revert_all_fixes.py` reverts every `fix:` commit, one at a time, in a scratch worktree
